@@ -1,4 +1,5 @@
 import LabtechModel.Proofs.StoreRefine
+import LabtechModel.Proofs.LinkExample
 /-!
 # C08 — Cache contents evolve exactly as run / bust_cache / uncache dictate
 
@@ -17,6 +18,35 @@ and `cache=None` types / `storage=None` never persist anything (`null_inert`).
 
 Hypotheses: `KeyInj U` (C07: distinct tasks, distinct keys), `∀ T, U.namePrefix T T` (a qualname is a
 prefix of itself), `Wf U d` for the initial disk (every entry was written by `BaseCache.save`).
+
+## Links to the other models (second half of this file; proofs in `Proofs/Link*.lean`)
+
+**Discharged: "the history model runs the planned tasks dependencies-first (no formal link to `Lt.run`)".**
+`labRun_agrees_with_scheduler`: translate the universe, the run stamp `g`, the failing set `fl` and the
+request into a scheduler problem (`Lt.Link.toProblem`: one object per task, `children = deps`,
+`behave` = the body of `runTask`) and the disk into a scheduler store (`Lt.Link.diskStore`); then for
+EVERY backend, `max_workers ≥ 1`, positive per-type limits and EVERY fair schedule that is long enough
+(`continue_on_failure`, as the history model's Lab), the final store of `Lt.run` read as a map
+tid ↦ value is the value part of the disk `labRun` leaves, `run_tasks` returns `labRun`'s dict, `run()`
+is executed for exactly `labRun`'s `execd` and a load happens for exactly its `loaded`.
+`specRun_agrees_with_scheduler` is the same on the specification map (no `KeyInj`, no `Wf`),
+`scheduler_plans_neededFrom` identifies the scheduler's plan with `neededFrom`. Consequences on the
+scheduler: `scheduler_outcome_schedule_independent`, `scheduler_keeps_cached` (loaded tasks untouched),
+`scheduler_bust_executes_closure`, `scheduler_failed_execution_keeps_entry`. The proof goes through
+`Props.C10.store_after_run` / `unrelated_tasks_return_reference` (`refEvalF`) and the closed form
+`Lt.Link.specRun_closed` of the history model's fold. Hypothesis `Lt.Link.UOK`: dependencies have
+smaller tids (the `Universe` convention), requested tids are `< U.n`.
+NOT linked (the scheduler model has no such data): the start/duration metadata of an entry, and the
+order of `execd` (linked as sets).
+
+**Discharged: the hypothesis `KeyInj`.** `lab_refines_map_params` / `labRun_agrees_with_scheduler_params`
+replace it by `Lt.Link.Represents` (the universe's type/hash numbers stand for the class strings / sha1
+digests of real parameter trees of `Model/Params.lean`), `WfTasks` (`wfValue` at every depth — F07's input
+class stays excluded exactly as in C07), `Distinct`, and the two named assumptions of C07: `ShaInjOn`
+(sha1 collision-free on the pre-images that occur) and `DumpsInjOn` (`json.dumps` separates the documents
+that occur); `Lt.Link.keyInj_of_params` is the derivation (`C07.serTask_injective_partial`,
+`classRef_injective`; `keyInj_of_params_via_cacheKey` goes literally through the real key string and
+`C07.cacheKey_injective_partial`).
 -/
 namespace Lt.Props.C08
 open Lt.Store
@@ -273,7 +303,7 @@ theorem cached_task_meta_is_stored_meta (U : Universe) (d : Disk) (t : Tid) (s :
   cases hk : kindOf U t <;> rw [hk] at h <;> simp at h
   all_goals
     obtain ⟨_, h⟩ := h
-    cases he : lookup (keyOf U t) d with
+    cases he : Lt.Store.lookup (keyOf U t) d with
     | none => simp [he] at h
     | some e =>
       simp only [he] at h
@@ -314,5 +344,250 @@ example : runTask exU 2 [0] [] 0 = none ∧ runTask exU 2 [] [] 0 = some 2 := by
 
 example : (histC { exU with nullStorage := true } [] [.run false 1 [0] [], .isCached 0]).2
     = [.ran [(0, 1)] [0] [], .bool false] := by decide
+
+
+/-! ## link to the scheduler model (`Model/Run.lean`): `labRun` summarises every schedule
+
+`Lt.Link.toProblem U mp g fl req` reads the universe as a scheduler problem (one object per task,
+`children = deps`, `behave` = the body of `runTask`); `Lt.Link.diskStore U d` is the scheduler store
+holding the value every task of the universe loads from `d`; `Lt.Link.UOK` says that dependencies
+have smaller tids and the request names tasks of the universe. -/
+
+/-- **the dependency-first `labRun` is what the scheduler computes, whatever the schedule**: for every
+    backend, `max_workers ≥ 1`, positive per-type limits, every fair schedule that is long enough, the
+    final store of `Lt.run`, read as a map tid ↦ value, is the value part of the disk `labRun`
+    leaves; `run_tasks` returns `labRun`'s result; `run()` is executed for exactly `labRun`'s `execd`
+    and a load happens for exactly its `loaded`. (Not linked: start/duration metadata, which the
+    scheduler model does not carry, and the order of `execd`.) -/
+theorem labRun_agrees_with_scheduler (U : Universe) (hinj : KeyInj U)
+    (mp : Nat → Option Nat) (g : Nat) (fl req : List Nat) (hU : Lt.Link.UOK U req)
+    (d : Disk) (wf : Wf U d)
+    (cfg : Lt.Config) (hcf : cfg.contOnFail = true) (fuel : Nat) (hF : ∀ t ∈ req, t < fuel)
+    (hL : 0 < cfg.maxWorkers ∧ ∀ T L, mp T = some L → 0 < L)
+    (sched : List Lt.Choice) (hfair : Lt.Fair sched)
+    (hlen : (neededFrom U (fun t => !cfg.bust && labIsCached U d t) req).length + 1 ≤ sched.length) :
+    (∀ t, Lt.lookup t (Lt.run cfg (Lt.Link.toProblem U mp g fl req) (Lt.Link.diskStore U d) fuel sched).store =
+      (cLoad U (labRun U cfg.bust g fl req d).disk t).map (fun s => s.val)) ∧
+    (Lt.run cfg (Lt.Link.toProblem U mp g fl req) (Lt.Link.diskStore U d) fuel sched).status =
+      .returned (returned (Lt.dedup req) (labRun U cfg.bust g fl req d)) ∧
+    (∀ t, (∃ seen, Lt.Ev.exec t seen ∈ (Lt.run cfg (Lt.Link.toProblem U mp g fl req) (Lt.Link.diskStore U d) fuel sched).trace) ↔
+      t ∈ (labRun U cfg.bust g fl req d).execd) ∧
+    (∀ t, Lt.Ev.load t ∈ (Lt.run cfg (Lt.Link.toProblem U mp g fl req) (Lt.Link.diskStore U d) fuel sched).trace ↔
+      t ∈ (labRun U cfg.bust g fl req d).loaded.map Prod.fst) :=
+  Lt.Link.labRun_agrees_with_scheduler_disk U hinj mp g fl req hU d wf cfg hcf fuel hF hL sched hfair hlen
+
+/-- the same on the specification map, without `KeyInj` / `Wf`: any map `m` whose entries belong to
+    persisting tasks, any scheduler store `st` holding the values of `m` -/
+theorem specRun_agrees_with_scheduler (U : Universe) (mp : Nat → Option Nat) (g : Nat) (fl req : List Nat)
+    (hU : Lt.Link.UOK U req) (cfg : Lt.Config) (m : AMap) (st : Lt.Store)
+    (hrel : Lt.Link.StoreRel m st) (hmap : Lt.Link.MapOK U m) (fuel : Nat)
+    (hcf : cfg.contOnFail = true) (hF : ∀ t ∈ req, t < fuel)
+    (hL : 0 < cfg.maxWorkers ∧ ∀ T L, mp T = some L → 0 < L)
+    (sched : List Lt.Choice) (hfair : Lt.Fair sched)
+    (hlen : (neededFrom U (fun t => !cfg.bust && (m t).isSome) req).length + 1 ≤ sched.length) :
+    (∀ t, Lt.lookup t (Lt.run cfg (Lt.Link.toProblem U mp g fl req) st fuel sched).store =
+      ((specRun U cfg.bust g fl req m).map t).map (fun s => s.val)) ∧
+    (Lt.run cfg (Lt.Link.toProblem U mp g fl req) st fuel sched).status =
+      .returned (returnedA (Lt.dedup req) (specRun U cfg.bust g fl req m)) ∧
+    (∀ t, (∃ seen, Lt.Ev.exec t seen ∈ (Lt.run cfg (Lt.Link.toProblem U mp g fl req) st fuel sched).trace) ↔
+      t ∈ (specRun U cfg.bust g fl req m).execd) ∧
+    (∀ t, Lt.Ev.load t ∈ (Lt.run cfg (Lt.Link.toProblem U mp g fl req) st fuel sched).trace ↔
+      t ∈ (specRun U cfg.bust g fl req m).loaded.map Prod.fst) :=
+  Lt.Link.specRun_agrees_with_scheduler U mp g fl req hU cfg m st hrel hmap fuel hcf hF hL sched hfair hlen
+
+/-- the scheduler plans exactly the tasks `neededFrom` lists (the closure of the request through
+    not-cached tasks) -/
+theorem scheduler_plans_neededFrom (U : Universe) (mp : Nat → Option Nat) (g : Nat) (fl req : List Nat)
+    (hU : Lt.Link.UOK U req) (cfg : Lt.Config) (m : AMap) (st : Lt.Store)
+    (hrel : Lt.Link.StoreRel m st) (hmap : Lt.Link.MapOK U m) (fuel : Nat) (hF : ∀ t ∈ req, t < fuel) (t : Nat) :
+    t ∈ (Lt.plan cfg (Lt.Link.toProblem U mp g fl req) st fuel).pending ↔
+      t ∈ neededFrom U (fun t => !cfg.bust && (m t).isSome) req :=
+  Lt.Link.planned_iff U mp g fl req hU cfg m st hrel hmap fuel hF t
+
+/-- two runs of the same request from the same disk — any two backends, worker counts, per-type
+    limits, fair schedules — leave the same store map and return the same dict -/
+theorem scheduler_outcome_schedule_independent (U : Universe) (hinj : KeyInj U)
+    (mp mp' : Nat → Option Nat) (g : Nat) (fl req : List Nat) (hU : Lt.Link.UOK U req)
+    (d : Disk) (wf : Wf U d)
+    (cfg cfg' : Lt.Config) (hb : cfg'.bust = cfg.bust) (hcf : cfg.contOnFail = true) (hcf' : cfg'.contOnFail = true)
+    (fuel : Nat) (hF : ∀ t ∈ req, t < fuel)
+    (hL : 0 < cfg.maxWorkers ∧ ∀ T L, mp T = some L → 0 < L)
+    (hL' : 0 < cfg'.maxWorkers ∧ ∀ T L, mp' T = some L → 0 < L)
+    (sched sched' : List Lt.Choice) (hfair : Lt.Fair sched) (hfair' : Lt.Fair sched')
+    (hlen : (neededFrom U (fun t => !cfg.bust && labIsCached U d t) req).length + 1 ≤ sched.length)
+    (hlen' : (neededFrom U (fun t => !cfg.bust && labIsCached U d t) req).length + 1 ≤ sched'.length) :
+    (∀ t, Lt.lookup t (Lt.run cfg (Lt.Link.toProblem U mp g fl req) (Lt.Link.diskStore U d) fuel sched).store =
+          Lt.lookup t (Lt.run cfg' (Lt.Link.toProblem U mp' g fl req) (Lt.Link.diskStore U d) fuel sched').store) ∧
+    (Lt.run cfg (Lt.Link.toProblem U mp g fl req) (Lt.Link.diskStore U d) fuel sched).status =
+      (Lt.run cfg' (Lt.Link.toProblem U mp' g fl req) (Lt.Link.diskStore U d) fuel sched').status := by
+  have h1 := labRun_agrees_with_scheduler U hinj mp g fl req hU d wf cfg hcf fuel hF hL sched hfair hlen
+  have h2 := labRun_agrees_with_scheduler U hinj mp' g fl req hU d wf cfg' hcf' fuel hF hL' sched' hfair'
+    (by rw [hb]; exact hlen')
+  rw [hb] at h2
+  exact ⟨fun t => by rw [h1.1 t, h2.1 t], by rw [h1.2.1, h2.2.1]⟩
+
+/-- **loaded tasks are untouched, on the scheduler**: without `bust_cache`, a task that is cached
+    beforehand is never executed by any schedule and its store entry stays -/
+theorem scheduler_keeps_cached (U : Universe) (hinj : KeyInj U)
+    (mp : Nat → Option Nat) (g : Nat) (fl req : List Nat) (hU : Lt.Link.UOK U req)
+    (d : Disk) (wf : Wf U d)
+    (cfg : Lt.Config) (hb : cfg.bust = false) (hcf : cfg.contOnFail = true) (fuel : Nat) (hF : ∀ t ∈ req, t < fuel)
+    (hL : 0 < cfg.maxWorkers ∧ ∀ T L, mp T = some L → 0 < L)
+    (sched : List Lt.Choice) (hfair : Lt.Fair sched)
+    (hlen : (neededFrom U (fun t => !cfg.bust && labIsCached U d t) req).length + 1 ≤ sched.length)
+    (x : Nat) (hx : labIsCached U d x = true) :
+    (∀ seen, Lt.Ev.exec x seen ∉ (Lt.run cfg (Lt.Link.toProblem U mp g fl req) (Lt.Link.diskStore U d) fuel sched).trace) ∧
+    Lt.lookup x (Lt.run cfg (Lt.Link.toProblem U mp g fl req) (Lt.Link.diskStore U d) fuel sched).store =
+      Lt.lookup x (Lt.Link.diskStore U d) := by
+  obtain ⟨h1, _, h3, _⟩ := labRun_agrees_with_scheduler U hinj mp g fl req hU d wf cfg hcf fuel hF hL sched hfair hlen
+  have r := run_refines U hinj cfg.bust g fl req d wf
+  have hsome : (abs U d x).isSome = true := by
+    unfold labIsCached at hx; rw [isCached_iff_load U d x wf hinj] at hx; exact hx
+  have hk := run_keeps_cached U g fl req (abs U d) x hsome
+  rw [← hb] at hk
+  refine ⟨fun seen hs => ?_, ?_⟩
+  · have := (h3 x).mp ⟨seen, hs⟩
+    rw [r.execd] at this
+    exact hk.1 this
+  · rw [h1 x, Lt.Link.diskStore_rel U hinj d wf x]
+    have : cLoad U (labRun U cfg.bust g fl req d).disk x = (specRun U cfg.bust g fl req (abs U d)).map x := by
+      rw [← r.map]; rfl
+    rw [this, hk.2]
+
+/-- **`bust_cache` re-executes the closure, on the scheduler**: every schedule executes exactly the
+    whole planned closure of the request and loads nothing -/
+theorem scheduler_bust_executes_closure (U : Universe) (hinj : KeyInj U)
+    (mp : Nat → Option Nat) (g : Nat) (fl req : List Nat) (hU : Lt.Link.UOK U req)
+    (d : Disk) (wf : Wf U d)
+    (cfg : Lt.Config) (hb : cfg.bust = true) (hcf : cfg.contOnFail = true) (fuel : Nat) (hF : ∀ t ∈ req, t < fuel)
+    (hL : 0 < cfg.maxWorkers ∧ ∀ T L, mp T = some L → 0 < L)
+    (sched : List Lt.Choice) (hfair : Lt.Fair sched)
+    (hlen : (neededFrom U (fun t => !cfg.bust && labIsCached U d t) req).length + 1 ≤ sched.length) :
+    (∀ t, (∃ seen, Lt.Ev.exec t seen ∈ (Lt.run cfg (Lt.Link.toProblem U mp g fl req) (Lt.Link.diskStore U d) fuel sched).trace) ↔
+      t ∈ neededFrom U (fun _ => false) req) ∧
+    (∀ t, Lt.Ev.load t ∉ (Lt.run cfg (Lt.Link.toProblem U mp g fl req) (Lt.Link.diskStore U d) fuel sched).trace) := by
+  obtain ⟨_, _, h3, h4⟩ := labRun_agrees_with_scheduler U hinj mp g fl req hU d wf cfg hcf fuel hF hL sched hfair hlen
+  have r := run_refines U hinj cfg.bust g fl req d wf
+  have hbe := bust_executes_closure U g fl req (abs U d)
+  rw [← hb] at hbe
+  refine ⟨fun t => ?_, fun t ht => ?_⟩
+  · rw [h3 t, r.execd, hbe.1, List.mem_reverse]
+  · have := (h4 t).mp ht
+    rw [r.loaded, hbe.2] at this
+    simp at this
+
+/-- **a failed execution changes nothing, on the scheduler**: a task that has no result in this run
+    (its `run()` raised, a dependency result was unavailable, or it is outside the plan) has, after
+    any schedule, the store entry it had before -/
+theorem scheduler_failed_execution_keeps_entry (U : Universe) (hinj : KeyInj U)
+    (mp : Nat → Option Nat) (g : Nat) (fl req : List Nat) (hU : Lt.Link.UOK U req)
+    (d : Disk) (wf : Wf U d)
+    (cfg : Lt.Config) (hcf : cfg.contOnFail = true) (fuel : Nat) (hF : ∀ t ∈ req, t < fuel)
+    (hL : 0 < cfg.maxWorkers ∧ ∀ T L, mp T = some L → 0 < L)
+    (sched : List Lt.Choice) (hfair : Lt.Fair sched)
+    (hlen : (neededFrom U (fun t => !cfg.bust && labIsCached U d t) req).length + 1 ≤ sched.length)
+    (x : Nat) (hx : ∀ v, lookupV x (labRun U cfg.bust g fl req d).vals ≠ some (some v)) :
+    Lt.lookup x (Lt.run cfg (Lt.Link.toProblem U mp g fl req) (Lt.Link.diskStore U d) fuel sched).store =
+      Lt.lookup x (Lt.Link.diskStore U d) := by
+  obtain ⟨h1, _, _, _⟩ := labRun_agrees_with_scheduler U hinj mp g fl req hU d wf cfg hcf fuel hF hL sched hfair hlen
+  have r := run_refines U hinj cfg.bust g fl req d wf
+  rw [r.vals] at hx
+  have hk := Lt.Link.specRun_no_result_keeps_entry U g fl req hU cfg (abs U d) (Lt.Link.diskStore U d)
+    (Lt.Link.diskStore_rel U hinj d wf) (Lt.Link.abs_mapOK U d) x hx
+  rw [h1 x, Lt.Link.diskStore_rel U hinj d wf x]
+  have : cLoad U (labRun U cfg.bust g fl req d).disk x = (specRun U cfg.bust g fl req (abs U d)).map x := by
+    rw [← r.map]; rfl
+  rw [this, hk]
+
+/-! ## `KeyInj` discharged from the params model (C07)
+
+`Lt.Link.Represents U sha1 task`: the universe's type / hash numbers stand for the class strings /
+sha1 digests of the parameter trees `task t`; `WfTasks`: every tree is well-formed (`wfValue` at every
+depth — F07's input class stays excluded, as in C07); `Distinct`: tids name distinct tasks; and the
+two named assumptions of C07, `ShaInjOn` (sha1 collision-free on the pre-images that occur) and
+`DumpsInjOn` (`json.dumps` separates the documents that occur). -/
+
+/-- `lab_refines_map` with `KeyInj` replaced by the C07 assumptions -/
+theorem lab_refines_map_params (U : Universe) (sha1 : String → String) (task : Nat → Lt.Params.Task)
+    (hrep : Lt.Link.Represents U sha1 task) (hwf : Lt.Link.WfTasks U.n task) (hdist : Lt.Link.Distinct U.n task)
+    (hsha : Lt.Link.ShaInjOn sha1 U.n task) (hdumps : Lt.Link.DumpsInjOn U.n task)
+    (hpre : ∀ T, U.namePrefix T T = true) (ops : List Op) (d : Disk) (wf : Wf U d) :
+    abs U (histC U d ops).1 = (histA U (abs U d) ops).1 ∧
+    outsSame (histC U d ops).2 (histA U (abs U d) ops).2 ∧
+    Wf U (histC U d ops).1 :=
+  lab_refines_map U (Lt.Link.keyInj_of_params U sha1 task hrep hwf hdist hsha hdumps) hpre ops d wf
+
+/-- `labRun_agrees_with_scheduler` with `KeyInj` replaced by the C07 assumptions: the three
+    separately validated models composed -/
+theorem labRun_agrees_with_scheduler_params (U : Universe) (sha1 : String → String) (task : Nat → Lt.Params.Task)
+    (hrep : Lt.Link.Represents U sha1 task) (hwf : Lt.Link.WfTasks U.n task) (hdist : Lt.Link.Distinct U.n task)
+    (hsha : Lt.Link.ShaInjOn sha1 U.n task) (hdumps : Lt.Link.DumpsInjOn U.n task)
+    (mp : Nat → Option Nat) (g : Nat) (fl req : List Nat) (hU : Lt.Link.UOK U req)
+    (d : Disk) (wf : Wf U d)
+    (cfg : Lt.Config) (hcf : cfg.contOnFail = true) (fuel : Nat) (hF : ∀ t ∈ req, t < fuel)
+    (hL : 0 < cfg.maxWorkers ∧ ∀ T L, mp T = some L → 0 < L)
+    (sched : List Lt.Choice) (hfair : Lt.Fair sched)
+    (hlen : (neededFrom U (fun t => !cfg.bust && labIsCached U d t) req).length + 1 ≤ sched.length) :
+    (∀ t, Lt.lookup t (Lt.run cfg (Lt.Link.toProblem U mp g fl req) (Lt.Link.diskStore U d) fuel sched).store =
+      (cLoad U (labRun U cfg.bust g fl req d).disk t).map (fun s => s.val)) ∧
+    (Lt.run cfg (Lt.Link.toProblem U mp g fl req) (Lt.Link.diskStore U d) fuel sched).status =
+      .returned (returned (Lt.dedup req) (labRun U cfg.bust g fl req d)) :=
+  let h := labRun_agrees_with_scheduler U (Lt.Link.keyInj_of_params U sha1 task hrep hwf hdist hsha hdumps)
+    mp g fl req hU d wf cfg hcf fuel hF hL sched hfair hlen
+  ⟨h.1, h.2.1⟩
+
+/-! ## non-vacuity of the links: the universe `Lt.Link.exPU` (three tasks with real parameter trees,
+    `2 = Box(a=Leaf, b=Raw)` depends on `0 = Leaf` and `1 = Raw`, `Raw` has `cache=None`) -/
+
+/-- all hypotheses of the two links hold together on `exPU` (its `KeyInj` comes from the params model) -/
+example : KeyInj Lt.Link.exPU ∧ Lt.Link.UOK Lt.Link.exPU [2] ∧ Wf Lt.Link.exPU [] ∧
+    Lt.Link.Represents Lt.Link.exPU Lt.Link.exSha Lt.Link.exTask ∧ Lt.Link.WfTasks 3 Lt.Link.exTask ∧
+    Lt.Link.ShaInjOn Lt.Link.exSha 3 Lt.Link.exTask ∧ Lt.Link.DumpsInjOn 3 Lt.Link.exTask :=
+  ⟨Lt.Link.exPU_keyInj, Lt.Link.exPU_uok [2] (by decide), wf_nil _, Lt.Link.exPU_represents,
+   Lt.Link.exTask_wf, Lt.Link.exSha_injOn, Lt.Link.exTask_dumpsInj⟩
+
+/-- the link theorem instantiated: for EVERY backend, with one worker and a per-type limit of 1, the
+    slowest fair schedule returns what `labRun` returns -/
+example (be : Lt.Backend) :
+    (Lt.run { backend := be, maxWorkers := 1, contOnFail := true, bust := false }
+      (Lt.Link.toProblem Lt.Link.exPU (fun _ => some 1) 1 [] [2]) (Lt.Link.diskStore Lt.Link.exPU []) 3
+      (List.replicate 4 Lt.chooseFirst)).status =
+    .returned (returned (Lt.dedup [2]) (labRun Lt.Link.exPU false 1 [] [2] [])) :=
+  (labRun_agrees_with_scheduler Lt.Link.exPU Lt.Link.exPU_keyInj (fun _ => some 1) 1 [] [2]
+    (Lt.Link.exPU_uok [2] (by decide)) [] (wf_nil _)
+    { backend := be, maxWorkers := 1, contOnFail := true, bust := false } rfl 3 (by decide)
+    ⟨Nat.zero_lt_one, fun T L h => by simp at h; omega⟩ _ (Lt.fair_replicate 4 Lt.chooseFirst rfl)
+    (by
+      show (neededFrom Lt.Link.exPU (fun t => !false && labIsCached Lt.Link.exPU [] t) [2]).length + 1
+        ≤ (List.replicate 4 Lt.chooseFirst).length
+      decide)).2.1
+
+set_option maxRecDepth 100000 in
+/-- concretely (`decide`): a cold run, then a `bust_cache` run in which task 0 raises, then a plain
+    run that loads — scheduler (fork, 2 workers / serial) and `labRun` side by side: same store map,
+    same returned dict, same executed and loaded sets -/
+example :
+    let a1 := labRun Lt.Link.exPU false 1 [] [2] []
+    let r1 := Lt.run { backend := .fork, maxWorkers := 2, contOnFail := true, bust := false }
+      (Lt.Link.toProblem Lt.Link.exPU (fun _ => none) 1 [] [2]) (Lt.Link.diskStore Lt.Link.exPU []) 3
+      (List.replicate 4 Lt.chooseAll)
+    let a2 := labRun Lt.Link.exPU true 2 [0] [2] a1.disk
+    let r2 := Lt.run { backend := .serial, maxWorkers := 2, contOnFail := true, bust := true }
+      (Lt.Link.toProblem Lt.Link.exPU (fun _ => none) 2 [0] [2]) (Lt.Link.diskStore Lt.Link.exPU a1.disk) 3
+      (List.replicate 4 Lt.chooseAll)
+    let a3 := labRun Lt.Link.exPU false 3 [] [2, 1] a1.disk
+    let r3 := Lt.run { backend := .spawn, maxWorkers := 2, contOnFail := true, bust := false }
+      (Lt.Link.toProblem Lt.Link.exPU (fun _ => none) 3 [] [2, 1]) (Lt.Link.diskStore Lt.Link.exPU a1.disk) 3
+      (List.replicate 4 Lt.chooseAll)
+    Lt.Link.diskStore Lt.Link.exPU a1.disk = [(0, 1), (2, 3003)] ∧
+    [0, 1, 2].map (fun t => Lt.lookup t r1.store) = [some 1, none, some 3003] ∧
+    [0, 1, 2].map (fun t => (cLoad Lt.Link.exPU a1.disk t).map (fun s => s.val)) = [some 1, none, some 3003] ∧
+    r1.status = .returned (returned [2] a1) ∧ a1.execd = [2, 1, 0] ∧ Lt.ranOf r1.trace = [0, 1, 2] ∧
+    [0, 1, 2].map (fun t => Lt.lookup t r2.store) = [some 1, none, some 3003] ∧
+    [0, 1, 2].map (fun t => (cLoad Lt.Link.exPU a2.disk t).map (fun s => s.val)) = [some 1, none, some 3003] ∧
+    r2.status = .returned (returned [2] a2) ∧ returned [2] a2 = [] ∧ a2.execd = [2, 1, 0] ∧
+    r3.status = .returned (returned [2, 1] a3) ∧ returned [2, 1] a3 = [(2, 3003), (1, 1003)] ∧
+    a3.execd = [1] ∧ a3.loaded.map Prod.fst = [2] ∧ Lt.ranOf r3.trace = [2, 1] ∧ Lt.Ev.load 2 ∈ r3.trace := by
+  decide
 
 end Lt.Props.C08
